@@ -44,7 +44,10 @@ def run(ctx):
     inter = ['f x', 'function f if a; then b; fi', 'function f while a; do b; done', 'f if', 'echo f done', 'f a=1', 'f() { a; }', 'a=1 f', 'for f in a; do f; done', 'case f in f) f;; esac',
              'f <<f\nf\n', '$(f) `f`', 'function f { f=1; }', 'if f; then f; fi', 'f $f ${f} "$f"', 'f | f && f',
              # calls that stop (or succeed) in an unusual tokenizer state, and calls that show a leaked state
-             ';;', 'a ;; b', 'a;;', 'case a in', 'case a in b) c;;', 'a $(b ;;& c)', 'echo `case a in`', 'a=1', 'x=1 y', 'a+=(b c) d', 'a )', '(a', 'a <<E', 'a "', 'if a; then', '{ a;', 'a |', 'for i in', 'time a', 'coproc a']
+             ';;', 'a ;; b', 'a;;', 'case a in', 'case a in b) c;;', 'a $(b ;;& c)', 'echo `case a in`', 'a=1', 'x=1 y', 'a+=(b c) d', 'a )', '(a', 'a <<E', 'a "', 'if a; then', '{ a;', 'a |', 'for i in', 'time a', 'coproc a',
+             # calls that fail AFTER a here-document redirection was reduced and before its body was read (anything pending must die with the call),
+             # and calls that read a newline token
+             'a <<X; fi', 'cat <<EOF | )', 'cat <<E x "u', 'a <<-X <<<<b', 'a\nb', 'a\n\nb\n']
     pool_inputs += inter
     pool_inputs += [s for s in common.random_scripts(seed, 30 if quick else 300, mutate=1)]
     pool = []
